@@ -137,13 +137,18 @@ def main():
         acases.append(c)
     afacs = [Fr(2) ** ck.rng.choice([-10, -3, 3, 10]) for _ in acases]
     metamorphic(ck, acases, afacs, adaptive=True)
+    # (c) the scale REPORTED at an interpolated checkpoint is the one its covariance was computed with (the right end-point's;
+    #     in dynamic mode the local estimate of the step containing the checkpoint); the carried states keep theirs
+    import c05
+    c05.interp_refinement(ck, 10 if quick else 120, pid="C04", calibs=("dyn", "dyn_relin", "dyn", "mle"), book_only=True)
     if not pr["ok"] and not ck.violations:
         ck.report("C04.proof", f"proof obligations no longer check: {pr['errors']}",
                   {"broken": pr.get("failed_at", "Props/C04.v"), "errors": pr["errors"]}, nofail=True)
     ck.finish(rule="(a) one-step refinement of the calibrating solvers (running RMS update, dynamic scale, MLE finalisation with/without the 1/sqrt(N) "
               "correction, per-dimension scales for the block-diagonal model) with base scales 2^-22..2^22; (b) metamorphic: base scale x c "
               "(c = 2^-20..2^20) on fixed grids and adaptive runs: means, calibrated covariances and step counts invariant, estimated scale / c, "
-              "uncalibrated covariances x c^2; non-trivial: all; distinct by full input")
+              "uncalibrated covariances x c^2; (c) solver.interpolate_fwd between stepped states: the interpolated state reports the output scale "
+              "(and step counter) of the right end-point, with which its covariance was computed; step_from / interp_from keep theirs (model: Solver.interpolate_fwd); non-trivial: all; distinct by full input")
 
 
 if __name__ == "__main__":
